@@ -5,7 +5,21 @@ U_ = "wannierberri/utility.py"
 SM = "wannierberri/smoother.py"
 ER = "wannierberri/result/energyresult.py"
 RG = "wannierberri/run_grid.py"
+W9 = "wannierberri/w90files/"
 MUTANTS = [
+    dict(prop="C19", name="eig: revert fix", file=W9 + "eig.py", old="{self.data[ik][ib]:17.12f}", new="{self.data[ik, ib]:17.12f}"),
+    dict(prop="C19", name="eig: k and band columns swapped", file=W9 + "eig.py", old='f" {ib + 1:4d} {ik + 1:4d} ', new='f" {ik + 1:4d} {ib + 1:4d} '),
+    dict(prop="C19", name="amn: loops w/b swapped in writer", file=W9 + "amn.py", old="""            for iw in range(self.NW):
+                for ib in range(self.NB):
+                    f_amn_out.write""", new="""            for ib in range(self.NB):
+                for iw in range(self.NW):
+                    f_amn_out.write"""),
+    dict(prop="C19", name="amn: header NW NK NB", file=W9 + "amn.py", old='f"  {self.NB:3d} {self.NK:3d} {self.NW:3d}  \\n"', new='f"  {self.NW:3d} {self.NK:3d} {self.NB:3d}  \\n"'),
+    dict(prop="C19", name="mmn: writes data[ib,m,n]", file=W9 + "mmn.py", old="{self.data[ik][ib, n, m].real} {self.data[ik][ib, n, m].imag}", new="{self.data[ik][ib, m, n].real} {self.data[ik][ib, m, n].imag}"),
+    dict(prop="C19", name="mmn: neighbour not 1-based", file=W9 + "mmn.py", old="{bkvec.neighbours[ik][ib] + 1}", new="{bkvec.neighbours[ik][ib]}"),
+    dict(prop="C19", name="mmn reader: no transpose", file=W9 + "mmn.py", old="reshape(NK, NNB, NB, NB).transpose((0, 1, 3, 2))", new="reshape(NK, NNB, NB, NB)"),
+    dict(prop="C19", name="io: keydic prefix without underscore check", file=W9 + "io.py", old='        if k.startswith(name + "_"):\n            dic[int(k[len(name) + 1:])] = v', new='        if k.startswith(name) and k != name and k[len(name) + 1:].isdigit():\n            dic[int(k[len(name) + 1:])] = v'),
+    dict(prop="C19", name="eig: precision 17.6f PRESERVING? no - loses digits", file=W9 + "eig.py", old="{self.data[ik][ib]:17.12f}", new="{self.data[ik][ib]:17.6f}"),
     dict(prop="C11", name="read_factors: revert fix", file=RG, old="iter_indices = np.sort(np.array([int(f.split(\"-\")[-1].split(\".\")[0]) for f in files]))", new="iter_indices = np.array([int(f.split(\"-\")[-1].split(\".\")[0]) for f in files])"),
     dict(prop="C11", name="read_factors: iter+1 dropped", file=RG, old="iter_index = iter_indices[-1] + iter + 1", new="iter_index = iter_indices[-1] + iter"),
     dict(prop="C11", name="read_factors: fallback picks later file", file=RG, old="iter_index = iter_indices[iter_indices <= iter_index][-1]", new="iter_index = iter_indices[iter_indices >= iter_index][0]"),
